@@ -1,0 +1,358 @@
+//go:build verif
+
+package dicescript
+
+import (
+	"errors"
+	"sort"
+	"strings"
+	"sync"
+
+	"golang.org/x/exp/rand"
+)
+
+// Hooks for deterministic simulation (build tag `verif`). Nothing here changes
+// behaviour unless a hook variable is set by a test harness.
+
+const verifOn = true
+
+// Yield sites reported through VerifYieldHook.
+const (
+	VerifSiteStep      = 1 // before a VM instruction is dispatched
+	VerifSiteRoll      = 2 // before a die is rolled
+	VerifSiteLangSet   = 3 // after Parse wrote the package-level error language
+	VerifSiteFormatErr = 4 // before the error formatter reads it
+	VerifSiteBlocked   = 5 // spinning on a held mutex (instrumented copies only)
+	VerifSiteStmtBase  = 1000
+
+	verifSiteLangSet   = VerifSiteLangSet
+	verifSiteFormatErr = VerifSiteFormatErr
+)
+
+// ErrVerifCancelled is the error an evaluation ends with when the step hook cancels it.
+var ErrVerifCancelled = errors.New("verif: evaluation cancelled by simulator")
+
+// VerifStep describes the instruction about to be dispatched.
+type VerifStep struct {
+	Ctx            *Context
+	OpIndex        int
+	Code           ByteCode
+	CodeLen        int
+	Top            int
+	BlockIndex     int
+	FstrBlockIndex int
+	DetailsLen     int
+	DiceStateIndex int
+	Depth          int
+}
+
+var (
+	// VerifStepHook is called before every instruction; returning true cancels the evaluation.
+	VerifStepHook func(s *VerifStep) bool
+	// VerifRollHook, when set, decides the face of every die. real() runs the unmodified Roll body.
+	VerifRollHook func(src *rand.PCGSource, sides IntType, mode int, real func() IntType) IntType
+	// VerifYieldHook is a preemption point for a cooperative scheduler.
+	VerifYieldHook func(site int)
+	// VerifSortedRange makes ValueMap.Range iterate in key order.
+	VerifSortedRange bool
+
+	verifInRoll bool
+)
+
+func verifStep(ctx *Context, opIndex int, code ByteCode, blockIndex, fstrBlockIndex, detailsLen, diceStateIndex int) bool {
+	if VerifYieldHook != nil {
+		VerifYieldHook(VerifSiteStep)
+	}
+	if VerifStepHook == nil {
+		return false
+	}
+	s := VerifStep{
+		Ctx: ctx, OpIndex: opIndex, Code: code, CodeLen: ctx.codeIndex, Top: ctx.top,
+		BlockIndex: blockIndex, FstrBlockIndex: fstrBlockIndex, DetailsLen: detailsLen,
+		DiceStateIndex: diceStateIndex, Depth: ctx.subThreadDepth,
+	}
+	if VerifStepHook(&s) {
+		ctx.Error = ErrVerifCancelled
+		return true
+	}
+	return false
+}
+
+func verifRoll(src *rand.PCGSource, dicePoints IntType, mod int) (IntType, bool) {
+	if VerifRollHook == nil {
+		if VerifYieldHook != nil {
+			VerifYieldHook(VerifSiteRoll)
+		}
+		return 0, false
+	}
+	if verifInRoll {
+		return 0, false
+	}
+	if VerifYieldHook != nil {
+		VerifYieldHook(VerifSiteRoll)
+	}
+	real := func() IntType {
+		verifInRoll = true
+		defer func() { verifInRoll = false }()
+		return Roll(src, dicePoints, mod)
+	}
+	return VerifRollHook(src, dicePoints, mod, real), true
+}
+
+func verifYield(site int) {
+	if VerifYieldHook != nil {
+		VerifYieldHook(site)
+	}
+}
+
+// verifLock is what `mu.Lock()` is rewritten to in instrumented scratch copies: a parked
+// task may hold the mutex, so waiting must be a yield loop.
+func verifLock(mu *sync.Mutex) {
+	for !mu.TryLock() {
+		verifYield(VerifSiteBlocked)
+	}
+}
+
+func verifRangeSorted(m map[string]*entryValueMap, f func(key string, value *VMValue) bool) bool {
+	if !VerifSortedRange {
+		return false
+	}
+	keys := make([]string, 0, len(m))
+	for k := range m {
+		keys = append(keys, k)
+	}
+	sort.Strings(keys)
+	for _, k := range keys {
+		v, ok := m[k].load()
+		if !ok {
+			continue
+		}
+		if !f(k, v) {
+			break
+		}
+	}
+	return true
+}
+
+// ---- read-only accessors (no call sites in the package) ----
+
+// VerifSetGlobalSeed reseeds the package-level generator (a simulated clock jump).
+func VerifSetGlobalSeed(seed uint64) { randSource.Seed(seed) }
+
+// VerifGlobalState returns the package-level generator state.
+func VerifGlobalState() []byte {
+	b, _ := randSource.MarshalBinary()
+	return b
+}
+
+// VerifGlobalSource returns the package-level generator (identity comparison only).
+func VerifGlobalSource() *rand.PCGSource { return randSource }
+
+// VerifParseErrorLanguage returns the package-level language selector.
+func VerifParseErrorLanguage() int { return parseErrorLanguage }
+
+// VerifOp is one instruction of a compiled program.
+type VerifOp struct {
+	T     int
+	Name  string
+	Text  string
+	Value any
+}
+
+func verifOps(code []ByteCode, n int) []VerifOp {
+	if n > len(code) {
+		n = len(code)
+	}
+	ops := make([]VerifOp, 0, n)
+	for i := 0; i < n; i++ {
+		c := code[i]
+		ops = append(ops, VerifOp{T: int(c.T), Name: VerifOpName(c), Text: c.CodeString(), Value: c.Value})
+	}
+	return ops
+}
+
+// VerifOpName returns the mnemonic of an instruction without its operand.
+func VerifOpName(c ByteCode) string {
+	s := c.CodeString()
+	if i := strings.IndexByte(s, ' '); i >= 0 {
+		s = s[:i]
+	}
+	return s
+}
+
+// VerifCode returns the main program of a context.
+func VerifCode(ctx *Context) []VerifOp { return verifOps(ctx.code, ctx.codeIndex) }
+
+// VerifCodeLen returns the instruction count and the buffer capacity of the main program.
+func VerifCodeLen(ctx *Context) (int, int) { return ctx.codeIndex, len(ctx.code) }
+
+// VerifBodies returns the compiled body of a function or computed value, if it has one.
+func VerifBodies(v *VMValue) ([]VerifOp, bool) {
+	if v == nil {
+		return nil, false
+	}
+	switch v.TypeId {
+	case VMTypeFunction:
+		if fd, ok := v.Value.(*FunctionData); ok && fd != nil && fd.code != nil {
+			return verifOps(fd.code, fd.codeIndex), true
+		}
+	case VMTypeComputedValue:
+		if cd, ok := v.Value.(*ComputedData); ok && cd != nil && cd.code != nil {
+			return verifOps(cd.code, cd.codeIndex), true
+		}
+	}
+	return nil, false
+}
+
+// VerifStackAt returns a pointer to an operand-stack slot (0 = bottom).
+func VerifStackAt(ctx *Context, i int) *VMValue {
+	if i < 0 || i >= len(ctx.stack) {
+		return nil
+	}
+	return &ctx.stack[i]
+}
+
+// VerifParsedInput returns the text given to the last Parse and the parser offset.
+func VerifParsedInput(ctx *Context) ([]byte, int, bool) {
+	if ctx.parser == nil {
+		return nil, 0, false
+	}
+	return ctx.parser.data, ctx.parser.pt.offset, true
+}
+
+type verifCopier struct {
+	vals map[*VMValue]*VMValue
+	objs map[any]any
+	maps map[*ValueMap]*ValueMap
+}
+
+// VerifDeepCopy copies a value tree preserving aliasing inside the tree and compiled-code caches.
+func VerifDeepCopy(v *VMValue) *VMValue {
+	c := &verifCopier{vals: map[*VMValue]*VMValue{}, objs: map[any]any{}, maps: map[*ValueMap]*ValueMap{}}
+	return c.val(v)
+}
+
+// VerifDeepCopyMap copies a variable map the same way (aliasing across variables is preserved).
+func VerifDeepCopyMap(m *ValueMap) *ValueMap {
+	c := &verifCopier{vals: map[*VMValue]*VMValue{}, objs: map[any]any{}, maps: map[*ValueMap]*ValueMap{}}
+	return c.vmap(m)
+}
+
+func (c *verifCopier) vmap(m *ValueMap) *ValueMap {
+	if m == nil {
+		return nil
+	}
+	if n, ok := c.maps[m]; ok {
+		return n
+	}
+	n := &ValueMap{}
+	c.maps[m] = n
+	old := VerifSortedRange
+	VerifSortedRange = true
+	m.Range(func(k string, v *VMValue) bool {
+		n.Store(k, c.val(v))
+		return true
+	})
+	VerifSortedRange = old
+	return n
+}
+
+func (c *verifCopier) val(v *VMValue) *VMValue {
+	if v == nil {
+		return nil
+	}
+	if n, ok := c.vals[v]; ok {
+		return n
+	}
+	n := &VMValue{TypeId: v.TypeId, Value: v.Value}
+	c.vals[v] = n
+	switch d := v.Value.(type) {
+	case *ArrayData:
+		if d == nil {
+			break
+		}
+		if o, ok := c.objs[d]; ok {
+			n.Value = o
+			break
+		}
+		nd := &ArrayData{}
+		c.objs[d] = nd
+		n.Value = nd
+		if d.List != nil {
+			nd.List = make([]*VMValue, len(d.List))
+			for i, e := range d.List {
+				nd.List[i] = c.val(e)
+			}
+		}
+	case *DictData:
+		if d == nil {
+			break
+		}
+		if o, ok := c.objs[d]; ok {
+			n.Value = o
+			break
+		}
+		nd := &DictData{}
+		c.objs[d] = nd
+		n.Value = nd
+		nd.Dict = c.vmap(d.Dict)
+	case *ComputedData:
+		if d == nil {
+			break
+		}
+		if o, ok := c.objs[d]; ok {
+			n.Value = o
+			break
+		}
+		nd := &ComputedData{Expr: d.Expr, code: d.code, codeIndex: d.codeIndex}
+		c.objs[d] = nd
+		n.Value = nd
+		nd.Attrs = c.vmap(d.Attrs)
+	case *FunctionData:
+		if d == nil {
+			break
+		}
+		if o, ok := c.objs[d]; ok {
+			n.Value = o
+			break
+		}
+		nd := &FunctionData{Expr: d.Expr, Name: d.Name, code: d.code, codeIndex: d.codeIndex}
+		c.objs[d] = nd
+		n.Value = nd
+		nd.Params = append([]string(nil), d.Params...)
+		for _, e := range d.Defaults {
+			nd.Defaults = append(nd.Defaults, c.val(e))
+		}
+		nd.Self = c.val(d.Self)
+	}
+	return n
+}
+
+// VerifMapShape describes the internal state of a ValueMap (used only as a reach probe).
+type VerifMapShape struct {
+	Amended  bool
+	DirtyNil bool
+	ReadLen  int
+	DirtyLen int
+	Live     int
+	NilEnt   int
+	Expunged int
+	Misses   int
+}
+
+// VerifShape reports the internal shape of the map. Not safe for concurrent use.
+func (m *ValueMap) VerifShape() VerifMapShape {
+	read, _ := m.read.Load().(readOnlyValueMap)
+	s := VerifMapShape{Amended: read.amended, DirtyNil: m.dirty == nil, ReadLen: len(read.m), DirtyLen: len(m.dirty), Misses: m.misses}
+	for _, e := range read.m {
+		switch e.p {
+		case nil:
+			s.NilEnt++
+		case expungedValueMap:
+			s.Expunged++
+		default:
+			s.Live++
+		}
+	}
+	return s
+}
